@@ -307,6 +307,7 @@ func TestC15(t *testing.T) {
 			ID  uint16 `json:"id"`
 			Seq uint16 `json:"seq"`
 		} `json:"sends"`
+		Log int `json:"log,omitempty"` // 0 info, 1 errors only, 2 debug traces
 	}
 	drv.Prop(t, rec, "send-functions", 400, 12000, func(t *rapid.T) sendCase {
 		var c sendCase
@@ -318,11 +319,14 @@ func TestC15(t *testing.T) {
 				Seq uint16 `json:"seq"`
 			}{rapid.SampledFrom([]string{"echo4", "echo6", "echo6", "ns", "na", "rs", "ra"}).Draw(t, "k"), rapid.IntRange(0, 3).Draw(t, "a"), rapid.Uint16().Draw(t, "id"), rapid.Uint16().Draw(t, "seq")})
 		}
+		c.Log = rapid.SampledFrom([]int{0, 0, 1, 2, 2}).Draw(t, "log")
 		return c
 	}, func(tb drv.TB, c sendCase) {
 		rec.Eval()
 		drv.Begin("C15", "send-functions", 'J', mustJSON(c), 20*time.Second)
 		defer drv.End()
+		defer setLogLevel(c.Log)()
+		rec.Class("send functions: log level " + string(rune('0'+c.Log)))
 		w := gen.DefaultWorld()
 		s, conn := newSession(defaultNIC())
 		defer closeSession(s)
